@@ -303,7 +303,7 @@ func genAuthTok(rng *rand.Rand, users, pass []string) string {
 	}
 }
 
-func mixCase(rng *rand.Rand, s string) string {
+func haMixCase(rng *rand.Rand, s string) string {
 	if rng.Intn(3) != 0 {
 		return s
 	}
@@ -344,12 +344,12 @@ func httpAuthGen(rng *rand.Rand, n int, emit func(string)) {
 			if rng.Intn(4) == 0 {
 				u, p = "", ""
 			}
-			emit(fmt.Sprintf("reg %s %s %s %s %s %d", hx(mixCase(rng, pick(rng, haHosts))), hx(pick(rng, []string{"", "/", "/a", "/ab"})), hx(ru), hx(u), hx(p), id))
+			emit(fmt.Sprintf("reg %s %s %s %s %s %d", hx(haMixCase(rng, pick(rng, haHosts))), hx(pick(rng, []string{"", "/", "/a", "/ab"})), hx(ru), hx(u), hx(p), id))
 		case k < 26:
 			emit(fmt.Sprintf("unreg %s %s %s", hx(pick(rng, haHosts)), hx(pick(rng, []string{"", "/", "/a", "/ab"})), hx(pick(rng, haUsers))))
 		case k < 66:
 			form := pick(rng, []string{"o", "o", "a", "a", "c"})
-			host := mixCase(rng, concreteHost(rng, pick(rng, haHosts)))
+			host := haMixCase(rng, concreteHost(rng, pick(rng, haHosts)))
 			path := pick(rng, []string{"/", "/a", "/ab/x", "/b", "/a/b"})
 			if form == "c" {
 				host += pick(rng, []string{":443", ":80"})
@@ -361,9 +361,9 @@ func httpAuthGen(rng *rand.Rand, n int, emit func(string)) {
 		case k < 74:
 			id++
 			u, p := pick(rng, haUsers), pick(rng, haPass)
-			emit(fmt.Sprintf("mreg %s %s %s %s %d", hx(mixCase(rng, pick(rng, haHosts))), hx(pick(rng, haUsers)), hx(u), hx(p), id))
+			emit(fmt.Sprintf("mreg %s %s %s %s %d", hx(haMixCase(rng, pick(rng, haHosts))), hx(pick(rng, haUsers)), hx(u), hx(p), id))
 		case k < 90:
-			emit(fmt.Sprintf("mreq %s %s", hx(mixCase(rng, concreteHost(rng, pick(rng, haHosts)))), genAuthTok(rng, haUsers, haPass)))
+			emit(fmt.Sprintf("mreq %s %s", hx(haMixCase(rng, concreteHost(rng, pick(rng, haHosts)))), genAuthTok(rng, haUsers, haPass)))
 		case k < 99:
 			emit(fmt.Sprintf("mw %s %s %s", hx(pick(rng, haUsers)), hx(pick(rng, haPass)), genAuthTok(rng, haUsers, haPass)))
 		default:
